@@ -7,14 +7,43 @@ From V.Gen Require Import C13Schema.
 Definition wf_tree (p : D) : bool :=
   match norm (universe [p]) pczt_schema p with Some _ => true | None => false end.
 
+(** the harness reports a result tree by the first index at which it occurs in [parties ++ table] *)
+Fixpoint index_of (d : D) (l : list D) : option nat :=
+  match l with
+  | [] => None
+  | x :: r => if D_eqb d x then Some 0%nat else option_map S (index_of d r)
+  end.
+Definition first_idx (all : list D) (o : imp_res) : bool :=
+  match o with
+  | Ok (Some i) =>
+      match nth_error all (Z.to_nat i) with
+      | Some c => option_eqb Nat.eqb (index_of c all) (Some (Z.to_nat i)) && (0 <=? i)%Z
+      | None => false
+      end
+  | _ => true
+  end.
+
+(** all parties of a combine case have the same shielded shape *)
+Definition uniform_case (c : case) : bool :=
+  match c with
+  | CCombine ps tbl _ => with_norm ps tbl false (fun _ nps _ => all_pairs same_len nps)
+  | _ => true
+  end.
+
 Definition wf_case (c : case) : bool :=
   match c with
   | CShape _ => true
   | CCombine ps tbl rs =>
       with_norm ps tbl false (fun n nps ntbl =>
-        forallb (fun eo => forallb (fun i => Nat.ltb i (List.length ps)) (leaves (fst eo))) rs)
+        let all := nps ++ ntbl in
+        forallb (fun eo => wf_expr (fst eo) &&
+                           forallb (fun i => Nat.ltb i (List.length nps)) (leaves (fst eo)) &&
+                           first_idx all (snd eo)) rs)
   | CRole _ _ b a _ _ => wf_tree b && match a with Some a' => wf_tree a' | None => true end
   | CExtract p _ _ => wf_tree p
   | CSer p _ _ _ => wf_tree p
   | CParse _ _ _ => true
+  | CEffects p _ => wf_tree p
+  | CBytes _ _ _ => true
+  | CMut _ _ => true
   end.
